@@ -802,6 +802,8 @@ def check_c12(exe, tier, seed, verdict):
     # NULL / empty directory arguments
     ok += check_null_dirs(exe, verdict)
     ok += check_confdirs(exe, rnd.sample(recs, min(len(recs), 300)), verdict)
+    nreq = check_requirements_agree(exe, rnd.sample(recs, min(len(recs), 400 if tier == "quick" else 3000)), verdict)
+    ok += nreq
     # suffix absent / empty: every directory entry counts (names with and without ".conf", dot files)
     rns, recsns, _ = tree_export(2, [1, 6, 7, 8], 4, ["bb", "hs"], invariants=("HistoryFolds",))
     if tier == "quick" and len(recsns) > 600:
@@ -811,11 +813,70 @@ def check_c12(exe, tier, seed, verdict):
     ok += check_longnames_fold(exe, verdict)
     cov = {"states": r.distinct, "transitions": r.generated, "traces_validated_against_impl": ok,
            "evaluations": len(recs) * 9, "distinct_nontrivial": nn,
-           "rule": "every 2-layer tree (main x4 per layer, every subset of 3 names per layer, content shapes) exported by TLC (%d trees, %d replayed): econf_readDirs, econf_readDirsWithCallback, econf_readConfig(+WithCallback) with PARSING_DIRS=<the same two directories>, econf_readDirsHistory(+WithCallback) econf_readDirs under econf_set_conf_dirs, and econf_readDirs(+WithCallback) with the directories as relative names are all run on the SAME tree and each compared with the specification's expectation (so with each other); history members: path -> file identity, own content, order; model invariant HistoryFolds: folding the history with masking gives the result. The same under a non-default process-wide drop-in directory list, and with the suffix NULL / empty (every directory entry counts; %d trees over the names .conf, a.conf, a.conf.bak, conf): all merged-result entry points agree, both history variants agree and the delivered history folded with masking (Trace_Layers!THistFold) gives the result; the same with ONE drop-in name of 6, 64, 200, 254 and 255 bytes present in both layers. non-trivial = >= 2 files consulted and all seven calls compared." % (total, len(recs), nns),
+           "rule": "every 2-layer tree (main x4 per layer, every subset of 3 names per layer, content shapes) exported by TLC (%d trees, %d replayed): econf_readDirs, econf_readDirsWithCallback, econf_readConfig(+WithCallback) with PARSING_DIRS=<the same two directories>, econf_readDirsHistory(+WithCallback) econf_readDirs under econf_set_conf_dirs, and econf_readDirs(+WithCallback) with the directories as relative names are all run on the SAME tree and each compared with the specification's expectation (so with each other); history members: path -> file identity, own content, order; model invariant HistoryFolds: folding the history with masking gives the result. The same under a non-default process-wide drop-in directory list, and with the suffix NULL / empty (every directory entry counts; %d trees over the names .conf, a.conf, a.conf.bak, conf): all merged-result entry points agree, both history variants agree and the delivered history folded with masking (Trace_Layers!THistFold) gives the result; the same with ONE drop-in name of 6, 64, 200, 254 and 255 bytes present in both layers. While a process-wide requirement (owner / group / file permission bits / directory permission bits, in rotation) is in force that one file of the tree does not fulfil, the six entry points answer with the same return code and result (%d trees). non-trivial = >= 2 files consulted and all seven calls compared." % (total, len(recs), nns, nreq),
            "samples": [{"tree": tree_text({"main": x["main"], "drop": x["drop"], "shp": x["shp"]}), "history": x["hist"]} for x in recs[100:101]],
            "exhaustive": tier == "thorough",
            "trusted_base": ["TLC 1.8.0", "gcc ASan/UBSan", "drv.c"]}
     return cov
+
+
+def check_requirements_agree(exe, recs, verdict):
+    """C12 while a process-wide requirement is in force that ONE file of the tree does not fulfil (owner, group, file permission
+    bits, permission bits of its directory): all six entry points are run on the same tree and must answer with the same return
+    code and - where they succeed - the same result (no expectation from the model is used: the entry points are compared with
+    each other; what the requirement means is C16's business)."""
+    entries = ["readdirs", "readdirscb", "rc2", "rc2cb", "readhist", "readhistcb"]
+    cases, metas = [], []
+    kinds = ["owner", "group", "fileperm", "dirperm"]
+    for i, x in enumerate(recs):
+        R = ROOT + "/q%d" % (i % 16)
+        t = {"main": x["main"], "drop": x["drop"], "shp": x["shp"], "dnull": x.get("dnull")}
+        s, paths = materialise(t, Shape("readdirs", 2), R)
+        files = sorted(p for p in paths if p)
+        if not files:
+            continue
+        kind = kinds[i % 4]
+        victim = files[(i // 4) % len(files)]
+        sc = list(s)
+        if kind == "owner":
+            sc += ["chown %s 1 0" % hx(victim), "requireowner 0"]
+        elif kind == "group":
+            sc += ["chown %s 0 1" % hx(victim), "requiregroup 0"]
+        elif kind == "fileperm":
+            sc += ["chmod %s 640" % hx(victim), "requireperms 004 001"]
+        else:
+            sc += ["chmod %s 750" % hx(os.path.dirname(victim)), "requireperms 004 001"]
+        h = 1
+        for ent in entries:
+            sc += ["cbreset"] + Shape(ent, 2).call(h, R, cb=ent.endswith("cb"))
+            sc += ["dump %d" % h, "free %d" % h] if not ent.startswith("readhist") else ["free %d" % k for k in range(h, h + 8)]
+            h += 10
+        sc += ["resetsec", "chmod %s 755" % hx(os.path.dirname(victim))]
+        cases.append((i, sc))
+        metas.append((i, t, kind, victim))
+    res = core.run_cases(exe, cases)
+    ok = 0
+    for i, t, kind, victim in metas:
+        out = res.get(i)
+        fp = "C12:requirement:%s" % kind
+        case = {"kind": "requirements", "tree": t, "requirement": kind, "victim": victim.replace(ROOT, "")}
+        if out is None or out["crash"]:
+            verdict.violation(fp + ":crash", dict(case, crash=(out or {}).get("crash")), "entry points crashed under a %s requirement on %s" % (kind, tree_text(t)))
+            continue
+        ev = out["ev"]
+        reads = [(j, e) for j, e in enumerate(ev) if e["op"].startswith("read")]
+        rcs = [e["rc"] for _, e in reads]
+        lists = []
+        for (j, rd), ent in zip(reads, entries):
+            if not ent.startswith("readhist"):
+                nxt = [e for e in ev[j + 1:j + 3] if e["op"] == "dump"]
+                lists.append(as_map(listing_of_dump(nxt[0]) or []) if nxt and rd["rc"] == "ECONF_SUCCESS" else None)
+        if len(set(rcs)) != 1 or any(l != lists[0] for l in lists):
+            verdict.violation(fp, dict(case, got=dict(zip(entries, rcs))),
+                              "entry points disagree on %s while a %s requirement is in force that %s does not fulfil: %s" % (tree_text(t), kind, victim.replace(ROOT, ""), dict(zip(entries, rcs))))
+        else:
+            ok += 1
+    return ok
 
 
 def check_confdirs(exe, recs, verdict):
